@@ -16,6 +16,8 @@ pub const ALT_NAMES: [&str; 3] = ["zALTROOTz", "zALT2z", "zALT3z"];
 pub enum Cfg {
     Mem,
     Phys,
+    /// the read-only EmbeddedFS over /verif/fixture_embed (only generated as a LOWER overlay layer)
+    Emb,
     /// altroot at depth `usize` (0 = underlying root) of the inner stack
     Alt(Box<Cfg>, usize),
     /// overlay over layers (first = upper)
@@ -31,6 +33,7 @@ impl Cfg {
         match self {
             Cfg::Mem => "Mem".into(),
             Cfg::Phys => "Phys".into(),
+            Cfg::Emb => "Embedded".into(),
             Cfg::Alt(inner, d) => format!("Alt{}({})", d, inner.render()),
             Cfg::Ovl(ls) => format!("Ovl[{}]", ls.iter().map(|l| l.render()).collect::<Vec<_>>().join(", ")),
             Cfg::OvlSub(inner, n) => format!("OvlSub{}({})", n, inner.render()),
@@ -41,9 +44,10 @@ impl Cfg {
         match self {
             Cfg::Mem => "mem".into(),
             Cfg::Phys => "phys".into(),
+            Cfg::Emb => "emb".into(),
             Cfg::Alt(inner, _) => format!("alt({})", inner.shape()),
             Cfg::Ovl(ls) => {
-                let nested = ls.iter().any(|l| !matches!(l, Cfg::Mem | Cfg::Phys));
+                let nested = ls.iter().any(|l| !matches!(l, Cfg::Mem | Cfg::Phys | Cfg::Emb));
                 format!("ovl{}{}", ls.len(), if nested { "+nested" } else { "" })
             }
             Cfg::OvlSub(inner, n) => format!("ovlsub{}({})", n, inner.shape()),
@@ -53,13 +57,14 @@ impl Cfg {
         match self {
             Cfg::Mem => "mem",
             Cfg::Phys => "phys",
+            Cfg::Emb => "embedded",
             Cfg::Alt(..) => "altroot",
             Cfg::Ovl(..) | Cfg::OvlSub(..) => "overlay",
         }
     }
     pub fn nesting(&self) -> usize {
         match self {
-            Cfg::Mem | Cfg::Phys => 0,
+            Cfg::Mem | Cfg::Phys | Cfg::Emb => 0,
             Cfg::Alt(i, _) => 1 + i.nesting(),
             Cfg::Ovl(ls) => 1 + ls.iter().map(|l| l.nesting()).max().unwrap_or(0),
             Cfg::OvlSub(i, _) => 1 + i.nesting(),
@@ -67,7 +72,7 @@ impl Cfg {
     }
     pub fn contains_overlay(&self) -> bool {
         match self {
-            Cfg::Mem | Cfg::Phys => false,
+            Cfg::Mem | Cfg::Phys | Cfg::Emb => false,
             Cfg::Alt(i, _) => i.contains_overlay(),
             Cfg::Ovl(_) | Cfg::OvlSub(..) => true,
         }
@@ -75,7 +80,7 @@ impl Cfg {
     /// an overlay one of whose layers is (or contains) an overlay
     pub fn has_nested_overlay(&self) -> bool {
         match self {
-            Cfg::Mem | Cfg::Phys => false,
+            Cfg::Mem | Cfg::Phys | Cfg::Emb => false,
             Cfg::Alt(i, _) => i.has_nested_overlay(),
             Cfg::Ovl(ls) => ls.iter().any(|l| l.contains_overlay()),
             Cfg::OvlSub(i, _) => i.contains_overlay(),
@@ -83,7 +88,7 @@ impl Cfg {
     }
     pub fn contains_phys(&self) -> bool {
         match self {
-            Cfg::Mem => false,
+            Cfg::Mem | Cfg::Emb => false,
             Cfg::Phys => true,
             Cfg::Alt(i, _) => i.contains_phys(),
             Cfg::Ovl(ls) => ls.iter().any(|l| l.contains_phys()),
@@ -92,7 +97,7 @@ impl Cfg {
     }
     pub fn contains_alt(&self) -> bool {
         match self {
-            Cfg::Mem | Cfg::Phys => false,
+            Cfg::Mem | Cfg::Phys | Cfg::Emb => false,
             Cfg::Alt(..) => true,
             Cfg::Ovl(ls) => ls.iter().any(|l| l.contains_alt()),
             Cfg::OvlSub(i, _) => i.contains_alt(),
@@ -112,6 +117,7 @@ impl Cfg {
         match self {
             Cfg::Mem => json!("mem"),
             Cfg::Phys => json!("phys"),
+            Cfg::Emb => json!("emb"),
             Cfg::Alt(i, d) => json!({"alt": i.to_json(), "depth": d}),
             Cfg::Ovl(ls) => json!({"ovl": ls.iter().map(|l| l.to_json()).collect::<Vec<_>>()}),
             Cfg::OvlSub(i, n) => json!({"ovlsub": i.to_json(), "layers": n}),
@@ -122,6 +128,7 @@ impl Cfg {
             return match s {
                 "mem" => Some(Cfg::Mem),
                 "phys" => Some(Cfg::Phys),
+                "emb" => Some(Cfg::Emb),
                 _ => None,
             };
         }
@@ -200,6 +207,7 @@ pub fn build_fs_lw(cfg: &Cfg, scratch: &mut Vec<Arc<Scratch>>, leafwrap: &dyn Fn
             scratch.push(s);
             Ok(leafwrap(Arc::new(PhysicalFS::new(rootdir))))
         }
+        Cfg::Emb => Ok(leafwrap(Arc::new(vfs::EmbeddedFS::<crate::embed::Fixture>::new()))),
         Cfg::Alt(inner, depth) => {
             let under = plain_root(&build_fs_lw(inner, scratch, leafwrap)?);
             let mut p = under.clone();
@@ -273,6 +281,10 @@ pub fn build_full(
             let raw_roots: Vec<VfsPath> = raw.iter().map(plain_root).collect();
             for (li, p, n) in prepop {
                 let li = *li % raw.len();
+                // an embedded layer has its content already (see emb_prepop)
+                if ls[li] == Cfg::Emb {
+                    continue;
+                }
                 write_entry(&raw_roots[li], &format!("{}{}", prefix, p), n)?;
             }
             let wrapped: Vec<VfsPath> = raw.iter().enumerate().map(|(i, r)| wrap(r.clone(), i)).collect();
@@ -352,4 +364,56 @@ pub fn union_model(prepop: &Prepop, nlayers: usize) -> Tree {
         t.m.insert(p.clone(), node.clone());
     }
     t
+}
+
+impl Cfg {
+    pub fn contains_emb(&self) -> bool {
+        match self {
+            Cfg::Emb => true,
+            Cfg::Mem | Cfg::Phys => false,
+            Cfg::Alt(i, _) | Cfg::OvlSub(i, _) => i.contains_emb(),
+            Cfg::Ovl(ls) => ls.iter().any(|l| l.contains_emb()),
+        }
+    }
+}
+
+/// Pre-population for a stack whose outermost overlay has EmbeddedFS layers: entries aimed at an
+/// embedded layer are replaced by what the fixture really contains, and entries of the other
+/// layers that would contradict the fixture's types (the generator invariant is type consistency
+/// across layers) are dropped.
+pub fn emb_prepop(cfg: &Cfg, prepop: Prepop) -> Prepop {
+    let mut cur = cfg;
+    while let Cfg::Alt(inner, _) = cur {
+        cur = inner;
+    }
+    let ls = match cur {
+        Cfg::Ovl(ls) if ls.iter().any(|l| *l == Cfg::Emb) => ls,
+        _ => return prepop,
+    };
+    let fixture = crate::embed::fixture_tree();
+    let n = ls.len();
+    let mut out: Prepop = vec![];
+    for (li, p, node) in prepop {
+        if ls[li % n] == Cfg::Emb {
+            continue;
+        }
+        let clash = match fixture.get(&p) {
+            Some(Node::Dir) => !matches!(node, Node::Dir),
+            Some(Node::File(_)) => matches!(node, Node::Dir),
+            None => false,
+        } || ancestors_of(&p).iter().any(|a| matches!(fixture.get(a), Some(Node::File(_))));
+        if !clash {
+            out.push((li % n, p, node));
+        }
+    }
+    for (i, l) in ls.iter().enumerate() {
+        if *l == Cfg::Emb {
+            for (p, node) in fixture.m.iter() {
+                if !p.is_empty() {
+                    out.push((i, p.clone(), node.clone()));
+                }
+            }
+        }
+    }
+    out
 }
